@@ -91,3 +91,28 @@ Definition node_ok (w : world) (ff : option N) (n : node) : Prop :=
 Definition WorldOK (w : world) (ff : option N) : Prop := forall i n, w_nodes w i = Some n -> node_ok w ff n.
 
 End ProjectDefs.
+
+(* ------------------------------------------------------------------ the loader's own typing of a subtree
+   The loader never sees the STORED type of an element: it gives the root of what it reads a type and every sub-element the
+   type the parent's type lists for the sub-element's NAME in the file version.  LoaderWalk fuel w v i lt: reading the subtree
+   below i with type lt in version v, to depth fuel, every child list passes the loader's checks (LoaderAccepts) and every
+   sub-element's name resolves (no IncorrectBeginElement / ElementVersionError); n_type plays no role.
+   OrdSet w v S: S is closed under sub-elements and the child list of every element of S is in the specification order of its
+   STORED type in version v (what the order invariants of the editing calls maintain). *)
+Section LoaderWalkDefs.
+Variable T : tables.
+
+Fixpoint LoaderWalk (fuel : nat) (w : world) (v : N) (i : id) (lt : etype) {struct fuel} : Prop :=
+  match fuel with
+  | O => True
+  | S f =>
+    exists n items, w_nodes w i = Some n /\ items_of w (n_content n) = Some items /\ LoaderAccepts T lt v items /\
+      forall c cn, In (CElem c) (n_content n) -> w_nodes w c = Some cn ->
+        exists et ix, find_sub_element T lt (n_name cn) v = Val (Some (et, ix)) /\ LoaderWalk f w v c et
+  end.
+
+Definition OrdSet (w : world) (v : N) (S : id -> Prop) : Prop :=
+  forall i, S i -> exists n items, w_nodes w i = Some n /\ items_of w (n_content n) = Some items /\
+    Ordered T (n_type n) v items /\ forall c, In (CElem c) (n_content n) -> S c.
+
+End LoaderWalkDefs.
